@@ -139,7 +139,7 @@ func (s *script) resend(c *clientC, sessNo, slot int, seq uint32, cache bool, op
 // finish: all clients vanish, the clock passes the lease, one more
 // request triggers the server's bookkeeping, and the state is logged.
 func (s *script) finish() {
-	if s.dead {
+	if s.dead || s.e.stuck {
 		return
 	}
 	s.e.advance(leaseTicks + 2)
